@@ -228,6 +228,10 @@ def write_hash_list(hash_list: MHLHashList, file_path: str):
     # once it is complete, so an interrupted run never leaves a half-written manifest behind. The temporary name is
     # short: the manifest name itself may be as long as the file system allows (it contains the folder name)
     temp_file_path = os.path.join(directory_path, "ascmhl_hashlist.tmp")
+    # start from a fresh file: a leftover of an interrupted run may have further hard links (snapshot copies of the
+    # folder), which must not be written through
+    if os.path.lexists(temp_file_path):
+        os.remove(temp_file_path)
     file = open(temp_file_path, "wb")
     file.write(b'<?xml version="1.0" encoding="UTF-8"?>\n<hashlist version="2.0" xmlns="urn:ASC:MHL:v2.0">\n')
     current_indent = "  "
